@@ -42,6 +42,7 @@ type c06Req struct {
 	termAt     time.Duration
 	limitAt    time.Duration // when run_count reached the attempt limit (0 = not yet)
 	startedBy  string        // instance that wrote the last start record and has not yet written bookkeeping
+	startedT   time.Duration // when that start record was written
 	deletedBy  string
 	deletedAt  time.Duration
 	counted    int
@@ -56,15 +57,28 @@ type c06Monitor struct {
 	cur      *c06Req
 	all      map[string]*c06Req
 	iterBeg  map[string]time.Duration
-	lastEnd  time.Duration // end of the last completed iteration of any daemon in the Manager state
+	lastEnd  time.Duration            // end of the last completed iteration of any daemon in the Manager state
+	lastLock map[string]string        // instance -> last answer about the manager lock
+	dcsErr   map[string]time.Duration // instance -> time of its last failed coordination-service call
 	Terminal map[string]int
 }
 
 func isDaemon(s *Sim, client string) bool { return s.InstByName(client) != nil }
 
 func newC06Monitor(sc *Scen, limit int, timeout time.Duration) *c06Monitor {
-	m := &c06Monitor{sc: sc, limit: limit, timeout: timeout, all: map[string]*c06Req{}, iterBeg: map[string]time.Duration{}, Terminal: map[string]int{}}
+	m := &c06Monitor{sc: sc, limit: limit, timeout: timeout, all: map[string]*c06Req{}, iterBeg: map[string]time.Duration{}, Terminal: map[string]int{},
+		lastLock: map[string]string{}, dcsErr: map[string]time.Duration{}}
 	s := sc.S
+	s.OnDCS(func(inst, method, path, arg, res string) {
+		m.mu.Lock()
+		defer m.mu.Unlock()
+		if method == "AcquireLock" {
+			m.lastLock[inst] = res
+		}
+		if strings.HasPrefix(res, "error") {
+			m.dcsErr[inst] = s.W.Now()
+		}
+	})
 	s.OnZK(func(r fakezk.Rec) {
 		p := strings.TrimPrefix(r.Path, NS+"/")
 		if p != "switch" && p != "last_switch" && p != "last_rejected_switch" {
@@ -91,6 +105,16 @@ func newC06Monitor(sc *Scen, limit int, timeout time.Duration) *c06Monitor {
 		delete(m.iterBeg, inst)
 		if ok {
 			m.lastEnd = s.W.Now()
+		}
+		// every attempt a manager starts ends in bookkeeping by that manager - the failure counted, or the outcome
+		// recorded - unless the request was aborted meanwhile, the manager lost the lock, or it could not reach the
+		// coordination service
+		if q := m.cur; ok && q != nil && q.terminal == "" && q.deletedBy == "" && q.startedBy == inst && q.startedT >= beg {
+			if e, bad := m.dcsErr[inst]; m.lastLock[inst] == "true" && !(bad && e >= beg) {
+				m.sc.Violate("C06", "attempt-ended-without-record", fmt.Sprintf("%s started an attempt of request %s at %.1fs (run_count %d) and completed the iteration holding the lock without counting a failure or recording an outcome; the request is still pending",
+					inst, q.id, q.startedT.Seconds(), q.rec.RunCount))
+			}
+			q.startedBy = ""
 		}
 		if !ok || next != "Manager" || m.cur == nil || m.cur.terminal != "" {
 			return
@@ -172,7 +196,7 @@ func (m *c06Monitor) onWrite(w *world.World, key string, r fakezk.Rec) {
 			q.rec = rec
 			switch {
 			case !rec.StartedAt.Equal(prev.StartedAt) && rec.StartedBy != "":
-				q.startedBy = r.Client
+				q.startedBy, q.startedT = r.Client, now
 				m.sc.Cover("started")
 			case rec.Result != nil && !rec.Result.Ok:
 				// a failed attempt is counted exactly once
@@ -419,7 +443,7 @@ func c06Run(u *Unit) {
 		if q := mon.cur; q != nil && q.terminal == "" && s.W.Now()-mon.lastEnd > 180*time.Second && s.W.Now()-q.filedAt > 200*time.Second {
 			if _, pend := s.Cached("switch"); pend {
 				sc.Violate("C06", "no-manager-iteration-completes-while-request-pending", fmt.Sprintf("request %s (%s, run_count %d) is pending and no iteration of a managing daemon has completed for %.0f s (last at %.1fs, lock holder %q)",
-					q.id, q.rec.Transition, q.rec.RunCount, (s.W.Now() - mon.lastEnd).Seconds(), mon.lastEnd.Seconds(), lockHolder(s)))
+					q.id, q.rec.Transition, q.rec.RunCount, (s.W.Now()-mon.lastEnd).Seconds(), mon.lastEnd.Seconds(), lockHolder(s)))
 			}
 		}
 		mon.mu.Unlock()
